@@ -2678,6 +2678,9 @@ XPathProcessorImpl::LocationPathPattern()
 
     m_expression->appendOpCode(XPathExpression::eOP_LOCATIONPATHPATTERN);
 
+    // '//' must be followed by a RelativePathPattern.
+    bool    expectRelativePathPattern = false;
+
     if(lookahead(XalanUnicode::charLeftParenthesis, 1) == true &&
                 (tokenIs(s_functionIDString) == true ||
                  tokenIs(s_functionKeyString) == true))
@@ -2697,6 +2700,8 @@ XPathProcessorImpl::LocationPathPattern()
             m_expression->updateOpCodeLength(newOpPos);
 
             nextToken();
+
+            expectRelativePathPattern = true;
         }
     }
     else if(tokenIs(XalanUnicode::charSolidus) == true)
@@ -2715,6 +2720,8 @@ XPathProcessorImpl::LocationPathPattern()
             m_expression->appendOpCode(XPathExpression::eNODETYPE_NODE);
 
             nextToken();
+
+            expectRelativePathPattern = true;
         }
         else
         {
@@ -2735,12 +2742,20 @@ XPathProcessorImpl::LocationPathPattern()
         {
             RelativePathPattern();
         }
+        else if (expectRelativePathPattern == true)
+        {
+            error(XalanMessages::ExpectedNodeTest);
+        }
         else if (lookahead(XalanUnicode::charVerticalLine, -1) == true)
         {
             error(
                 XalanMessages::UnexpectedTokenFound_1Param,
                 m_token);
         }
+    }
+    else if (expectRelativePathPattern == true)
+    {
+        error(XalanMessages::ExpectedNodeTest);
     }
 
     // Terminate for safety.
